@@ -207,6 +207,7 @@ func checkC01(r *Report, known []Finding) {
 		n = 5000
 	}
 	compileTie(r, known, "C01", n)
+	c02RevSuffixTie(r) // IsMatch of the reverse-suffix strategy vs its Lean model and regexp
 	obs := append(obsMatch(), obsReader()[0], Obs{"pkg.MatchString", func(re StdAPI, h []byte) string {
 		p := re.String()
 		if _, ok := re.(*coregex.Regex); ok {
@@ -430,7 +431,11 @@ func c02RevSuffixTie(r *Report) {
 			continue
 		}
 		t.Disagreements++
-		if codeSpan != stdWant {
+		if gf := strings.Fields(c.got); c.at == 0 && len(gf) == 2 && gf[1] != fmt.Sprint(strings.Contains(strings.Join(strings.Split(c.req, " ")[len(strings.Split(c.req, " "))-1:], ""), ".")) {
+			// IsMatch of the real engine disagrees with regexp (the reference table has a span somewhere iff regexp matches)
+			r.Violate(fmt.Sprintf("UseReverseSuffix: IsMatch of %q on %q: coregex=%s, regexp=%v (FindIndicesAt from 0: %s; model: %s)", c.p, c.h, gf[1], !(gf[1] == "true"), gf[0], model),
+				map[string]any{"pattern": c.p, "haystack_hex": hexOf(c.h), "api": "Match", "coregex": gf[1], "model": model, "request": c.req}, false)
+		} else if codeSpan != stdWant {
 			r.Violate(fmt.Sprintf("UseReverseSuffix: FindIndicesAt of %q on %q at=%d: coregex=%s regexp=%s (model=%s)", c.p, c.h, c.at, codeSpan, stdWant, f[0]),
 				map[string]any{"pattern": c.p, "haystack_hex": hexOf(c.h), "at": c.at, "coregex": codeSpan, "regexp": stdWant, "model": f[0], "request": c.req}, false)
 		} else {
